@@ -478,7 +478,7 @@ func c01ErrClass(err error) string {
 		return "nil"
 	}
 	s := err.Error()
-	for _, k := range []string{"peer id mismatch", "signature invalid", "chacha20poly1305: message authentication failed", "EOF", "timeout", "deadline exceeded", "unmarshal", "closed"} {
+	for _, k := range []string{"peer id mismatch", "signature invalid", "error verifying signature", "proto:", "chacha20poly1305: message authentication failed", "EOF", "timeout", "deadline exceeded", "unmarshal", "closed"} {
 		if strings.Contains(s, k) {
 			return k
 		}
